@@ -308,6 +308,31 @@ Fixpoint run_state (cfg : config) torc sorc (s : state) (ops : list op) : state 
   | o :: r => run_state cfg torc sorc (fst (step cfg torc sorc s o)) r
   end.
 
+(* ---------- overlapping requests ---------- *)
+(* Two requests in flight at the same time.  The code shares nothing between hosts of different
+   clusters (per-host caches, per-cluster clients), so the model executes them one after the other;
+   C12_overlap_commutes shows that for hosts of different clusters the order does not matter. *)
+Inductive xop :=
+| One (o : op)
+| Ovl (a b : op).      (* a is started first and its review is still in flight while b runs to completion *)
+
+Inductive xout :=
+| R1 (x : out)
+| R2 (x y : out).
+
+Definition stepx (cfg : config) torc sorc (s : state) (o : xop) : state * xout :=
+  match o with
+  | One a => let (s', x) := step cfg torc sorc s a in (s', R1 x)
+  | Ovl a b => let (s1, x) := step cfg torc sorc s a in
+               let (s2, y) := step cfg torc sorc s1 b in (s2, R2 x y)
+  end.
+
+Fixpoint runx (cfg : config) torc sorc (s : state) (ops : list xop) : list (xop * xout) :=
+  match ops with
+  | [] => []
+  | o :: r => let (s', x) := stepx cfg torc sorc s o in (o, x) :: runx cfg torc sorc s' r
+  end.
+
 (* ---------- boolean equalities used by the case evaluator ---------- *)
 Definition eclass_eqb (a b : eclass) : bool :=
   match a, b with
@@ -328,6 +353,13 @@ Definition out_eqb (a b : out) : bool :=
   | OutT r1 c1, OutT r2 c2 => (tresult_eqb r1 r2 && list_eqb call_eqb c1 c2)%bool
   | OutS r1 c1, OutS r2 c2 => (sresult_eqb r1 r2 && list_eqb call_eqb c1 c2)%bool
   | OutNone, OutNone => true
+  | _, _ => false
+  end.
+
+Definition xout_eqb (a b : xout) : bool :=
+  match a, b with
+  | R1 x, R1 y => out_eqb x y
+  | R2 x1 y1, R2 x2 y2 => (out_eqb x1 x2 && out_eqb y1 y2)%bool
   | _, _ => false
   end.
 
